@@ -13,6 +13,7 @@ package chain
 import (
 	"bytes"
 	"fmt"
+	"sync"
 	"time"
 
 	"github.com/spikeekips/mitum/base"
@@ -113,6 +114,7 @@ type World struct {
 	byBody map[string]int
 	byMeta map[string]int
 	pinned map[int]bool
+	mu     sync.Mutex // BytesRes pins first-seen bodies: readers may run concurrently
 	polSeq uint64
 	r      *vh.Rand
 
@@ -347,6 +349,8 @@ func (w *World) BytesRes(kind string, enchint string, meta, body []byte) int64 {
 	if enchint != w.Enc.Hint().String() {
 		return ResGarbage
 	}
+	w.mu.Lock()
+	defer w.mu.Unlock()
 	id, bodyok := -1, false
 	if len(body) > 0 {
 		key := kind + ":" + string(body)
